@@ -308,11 +308,15 @@ class ParallelWorkManager(contextlib.AbstractContextManager):
         with self.completed_lock:
             self.completed = True
         self.executor.shutdown(wait=False)
-        # FIXME there's currently some thing weird happening at the end of
-        # Encode 1D for 1kg-p3. The progress bar disappears, like we're
-        # setting a total of zero or something.
-        self.progress_thread.join()
-        self._update_progress()
+        if exc_type is None:
+            # FIXME there's currently some thing weird happening at the end of
+            # Encode 1D for 1kg-p3. The progress bar disappears, like we're
+            # setting a total of zero or something.
+            self.progress_thread.join()
+            self._update_progress()
+        # On error a worker may have died while holding the lock of the
+        # progress counter: reading it again (here or in the progress thread)
+        # would block forever, so the daemon thread is left to itself.
         self.progress_bar.close()
         return False
 
